@@ -19,6 +19,7 @@ mod tree;
 mod c09;
 mod c10;
 mod c11;
+mod c12;
 mod c13;
 mod c14;
 mod c15;
@@ -44,6 +45,23 @@ fn main() {
         let (dx, dy): (i32, i32) = (args[3].parse().unwrap(), args[4].parse().unwrap());
         let scale: f32 = args.get(5).and_then(|x| x.parse().ok()).unwrap_or(1.0);
         println!("{:?}", c13::translate_differs(&t, scale, dx, dy));
+        return;
+    }
+    if args[1] == "boxes" {
+        // vh boxes <file>: every node with its transforms and absolute boxes
+        let data = std::fs::read(&args[2]).unwrap();
+        let o = corpus::opts_for(Some(std::path::Path::new(&args[2])));
+        let t = usvg::Tree::from_data(&data, &o).unwrap();
+        fn dump(g: &usvg::Group, d: usize) {
+            println!("{}group id={:?} ts={:?} abs={:?} abs_layer={:?}", " ".repeat(d), g.id(), g.transform(), g.abs_transform(), g.abs_layer_bounding_box());
+            for n in g.children() {
+                match n {
+                    usvg::Node::Group(c) => dump(c, d + 2),
+                    n => println!("{}leaf id={:?} abs={:?} abs_bbox={:?} abs_stroke={:?}", " ".repeat(d + 2), n.id(), n.abs_transform(), n.abs_bounding_box(), n.abs_stroke_bounding_box()),
+                }
+            }
+        }
+        dump(t.root(), 0);
         return;
     }
     if args[1] == "write" {
@@ -85,6 +103,6 @@ fn main() {
             }
         };
     }
-    dispatch!("C01" => c01, "C02" => c02, "C03" => c03, "C04" => c04, "C05" => c05, "C07" => c07, "C08" => c08, "C09" => c09, "C10" => c10, "C11" => c11, "C13" => c13,
+    dispatch!("C01" => c01, "C02" => c02, "C03" => c03, "C04" => c04, "C05" => c05, "C07" => c07, "C08" => c08, "C09" => c09, "C10" => c10, "C11" => c11, "C12" => c12, "C13" => c13,
         "C14" => c14, "C15" => c15, "C16" => c16, "C17" => c17);
 }
